@@ -418,8 +418,12 @@ pub fn run(run: &mut Run) {
     run.prop("random-histories", random_case, run.tier.pick(20_000, 1_000_000), oracle);
     let bigs: Vec<BigCount> = run.tier.pick(vec![100_000, 100_001], vec![65_536, 100_000, 100_001, 250_000, 1_000_000]).into_iter().map(|n| BigCount { n }).collect();
     run.enumerate("many-fragments", bigs.into_iter(), big_oracle);
+    if run.tier == crate::engine::Tier::Thorough {
+        // coverage-guided byte fuzzing of the same oracle (libFuzzer, structure-aware through fuzzde); see fuzzbridge.rs
+        crate::fuzzbridge::campaign(run, "c09", 3_000_000, 400);
+    }
 }
 
 pub fn replays() -> Vec<ReplayEntry> {
-    vec![replay_entry("all-orders", oracle), replay_entry("random-histories", oracle), replay_entry("many-fragments", big_oracle)]
+    vec![replay_entry("fuzz:c09", crate::fuzzbridge::eval_input), replay_entry("all-orders", oracle), replay_entry("random-histories", oracle), replay_entry("many-fragments", big_oracle)]
 }
